@@ -44,6 +44,16 @@ def scenario_cfgs(tier):
         out.append(c)
     if not th:
         out = [c for c in out if not (c['variant'] == 'transport' and len(c['scen']) == 3)]
+    # assets with a coarser frequency of their own whose coarse step STRADDLES the boundary (both start one step before the horizon, so the
+    # coarse steps are {1}, {2,3}, {4} and the future begins at step 3): the decision for steps 2-3 is a present decision, common to all
+    # scenarios.  The scenarios share the prices of every step a present variable covers (steps 1..3) and differ in step 4 only.
+    T4 = 4
+    grp = [1, 2, 2, 3]
+    for scen in ([[2, 2, 2, 6], [2, 2, 2, 1]], [[2, 2, 2, 5], [2, 2, 2, 1], [2, 2, 2, 3]]):
+        a0 = F.contract(T4, 'n1', -2, 2, scen[0], group=grp, freq='2h', ws=0)
+        sto = F.storage(T4, 'n1', size=2, cin=1, cout=2, group=grp, freq='2h', ws=0)
+        cid += 1
+        out.append(F.make_cfg(cid, T4, [a0, sto], stage=3, scen=[[s, []] for s in scen], variant='coarse_straddle', coincide=False))
     return out
 
 
